@@ -63,6 +63,7 @@ func loadAll(repo string, overlay map[string][]byte) (*Prog, error) {
 	}
 	P.Specs = sp
 	registerMonitorPures(sp)
+	expandMonitorModifies(sp)
 	return P, nil
 }
 
@@ -271,3 +272,70 @@ func aggregate(obls []*Obligation) map[string]*aggObl {
 func cmdList(args []string) int     { fmt.Println("not implemented"); return 0 }
 func cmdSelftest(args []string) int { fmt.Println("not implemented"); return 0 }
 func cmdReplay(args []string) int   { fmt.Println("not implemented"); return 0 }
+
+
+// expandMonitorModifies rewrites `modifies monitor(x)` into the guard list of
+// the monitor whose owner type x has (matched by owner name -> argument).
+func expandMonitorModifies(sp *Specs) {
+	expand := func(fc *FuncContract) {
+		var out []Expr
+		for _, m := range fc.Modifies {
+			c, ok := m.(*ECall)
+			if !ok || c.Fn != "monitor" || len(c.Args) != 2 {
+				out = append(out, m)
+				continue
+			}
+			// monitor(TypeName, expr)
+			tn := c.Args[0].String()
+			for _, mon := range sp.Monitors {
+				i := strings.LastIndex(mon.TypeName, ".")
+				if mon.TypeName[i+1:] != tn {
+					continue
+				}
+				for _, g := range splitTop(strings.Join(mon.Guards, " ")) {
+					e, err := ParseExpr(g)
+					if err != nil {
+						continue
+					}
+					out = append(out, substIdent(e, mon.Owner, c.Args[1]))
+				}
+			}
+		}
+		fc.Modifies = out
+	}
+	for _, cs := range sp.Funcs {
+		for _, fc := range cs {
+			expand(fc)
+		}
+	}
+	for _, fc := range sp.Roles {
+		expand(fc)
+	}
+}
+
+func substIdent(e Expr, name string, by Expr) Expr {
+	switch x := e.(type) {
+	case *EIdent:
+		if x.Name == name {
+			return by
+		}
+		return x
+	case *EUnary:
+		return &EUnary{x.Op, substIdent(x.X, name, by)}
+	case *EBinary:
+		return &EBinary{x.Op, substIdent(x.X, name, by), substIdent(x.Y, name, by)}
+	case *ECall:
+		n := &ECall{Fn: x.Fn}
+		for _, a := range x.Args {
+			n.Args = append(n.Args, substIdent(a, name, by))
+		}
+		return n
+	case *EField:
+		return &EField{substIdent(x.X, name, by), x.Name}
+	case *EIndex:
+		return &EIndex{substIdent(x.X, name, by), substIdent(x.I, name, by)}
+	case *ECond:
+		return &ECond{substIdent(x.C, name, by), substIdent(x.A, name, by), substIdent(x.B, name, by)}
+	}
+	return e
+}
